@@ -1,7 +1,9 @@
 """C20 -- crashed workers are respawned; one daemon owns a pid file."""
+import concurrent.futures
 import json
 import os
 import random
+import shutil
 import signal as pysignal
 
 import vlib
@@ -24,7 +26,7 @@ def gen_loops(rng, n):
             (["exit:255", "exit:1"], False), (["kill:KILL", "kill:TERM"], False), (["wait"], True),
             (["exit:3", "kill:SEGV", "wait"], True)]
     for s, t in base:
-        loops.append({"script": s, "sigterm": t})
+        loops.append({"script": numeric(s), "sigterm": t})
     while len(loops) < n:
         k = rng.randint(0, 3)
         script = []
@@ -35,15 +37,20 @@ def gen_loops(rng, n):
                 script.append("kill:" + rng.choice(ABNORMAL_SIGS))
         term = rng.choice(["exit:0", "exit:1", "kill:TERM", "wait"])
         script.append(term)
-        loops.append({"script": script, "sigterm": term == "wait"})
+        loops.append({"script": numeric(script), "sigterm": term == "wait"})
     return loops
+
+
+def numeric(script):
+    """kill:NAME -> kill:<number> (dash's builtin kill does not know every signal name)"""
+    return ["kill:%d" % signum(x[5:]) if x.startswith("kill:") and not x[5:].isdigit() else x for x in script]
 
 
 def step_to_coq(st):
     if st.startswith("exit:"):
         return "ItTerm (Exit %s)" % cN(int(st[5:]))
     if st.startswith("kill:"):
-        return "ItTerm (Killed %s false)" % cN(signum(st[5:]))
+        return "ItTerm (Killed %s false)" % cN(int(st[5:]))
     if st == "wait":
         return "ItSigterm"
     raise ValueError(st)
@@ -52,9 +59,19 @@ def step_to_coq(st):
 def run(chk, replay=None):
     st = vlib.std_coq_stage(chk, "PropC20", gen=False)
     rng = random.Random(chk.seed)
+    rp = json.load(open(replay)) if replay else None
+    # a replay file re-runs the stage it came from: respawn files hold "loops", pid-file files "pidfile"
+    obs = None
+    if rp is None or "loops" in rp:
+        obs = respawn_stage(chk, st, rng, rp["loops"] if rp else None)
+    if rp is None or "pidfile" in rp:
+        pidfile_stage(chk, st, random.Random(chk.seed ^ 0x20C20), rp["pidfile"] if rp else None, obs)
+
+
+def respawn_stage(chk, st, rng, replay_loops):
     nloops = 24 if chk.tier == "quick" else 200
-    if replay:
-        loops = json.load(open(replay))["loops"]
+    if replay_loops is not None:
+        loops = replay_loops
     else:
         loops = gen_loops(rng, nloops)
 
@@ -177,3 +194,298 @@ Print table_corr_bad. Print table_prop_bad. Print loop_corr_bad. Print loop_prop
     chk.cov["disagreements"] = {k: len(v) for k, v in res.items()}
     chk.assumptions += ["Linux wait-status encoding (wait4) as modelled in Watcher.encode",
                         "stand-in workers die by a signal via sh -c 'kill -SIG $$' (default disposition)"]
+    return obs
+
+
+# ======================================================================================================
+# pid-file half: N real daemons racing for one pid file, every pid-file system call scheduled by the
+# harness (harness/go/newrelic/zz_verif_c20_pidfile_test.go), histories evaluated in Coq (coq/Pidfile.v)
+# ======================================================================================================
+
+def _acts(p, k):
+    return [["act", p]] * k
+
+
+def sc_race(rng, n):
+    """the race described in pidfile.go: B opens, A exits, B locks the deleted file; C makes a new one"""
+    s = [["run", 0], ["start", 1], ["act", 1], ["term", 0], ["act", 0], ["act", 0]]
+    variant = rng.choice(["gone", "gone-late", "changed", "changed-mid"])
+    if variant == "gone":
+        s += [["act", 1], ["act", 1]]               # B: lock (deleted file), stat: gone
+        s += [["start", 2]] + _acts(2, rng.randint(0, 6))
+    elif variant == "gone-late":
+        s += [["act", 1], ["act", 1], ["act", 1]]   # ... and B closes before C appears
+        s += [["start", 2]] + _acts(2, rng.randint(0, 6))
+    elif variant == "changed":
+        s += [["run", 2], ["act", 1], ["act", 1]]   # C owns a new file; B: lock (deleted file), stat: another file
+    else:
+        s += [["act", 1], ["start", 2], ["act", 2], ["act", 1]]   # C has only created the new file when B stats
+    s += [["any", rng.getrandbits(16)] for _ in range(rng.randint(10, 40))]
+    return {"kind": "race", "n": n, "script": s + [["drain"]]}
+
+
+def sc_window(rng, n):
+    """Remove = unlink, then close: successors arrive between the two"""
+    s = [["run", 0], ["term", 0], ["act", 0]]
+    k = rng.randint(1, min(3, n - 2))
+    for p in range(1, 1 + k):
+        if rng.random() < 0.6:
+            s += [["run", p]]
+        else:
+            s += [["start", p]] + _acts(p, rng.randint(0, 5))
+    s += [["act", 0]]
+    s += [["any", rng.getrandbits(16)] for _ in range(rng.randint(5, 30))]
+    return {"kind": "window", "n": n, "script": s + [["drain"]]}
+
+
+def sc_kill(rng, n):
+    """the holder is killed at a random protocol stage / while up; successors contend"""
+    s = [["start", 0]] + _acts(0, rng.randint(0, 6))
+    k = rng.randint(1, min(4, n - 2))
+    for p in range(1, 1 + k):
+        s += [["start", p]] + _acts(p, rng.randint(0, 3))
+    s += [["kill", 0]]
+    s += [["any", rng.getrandbits(16)] for _ in range(rng.randint(5, 40))]
+    s += [["drain"], ["run", n - 1]]
+    return {"kind": "kill", "n": n, "script": s + [["drain"]]}
+
+
+def sc_exhaust(rng, n):
+    """ten owners come and go between the victim's open and its F_SETLK: ErrRetryLimit"""
+    n = max(n, 12)
+    v = 11
+    s = []
+    for c in range(10):
+        s += [["run", c]]
+        if c == 0:
+            s += [["start", v]]
+        s += [["act", v], ["term", c], ["act", c], ["act", c], ["act", v], ["act", v], ["act", v]]
+    s += [["drain"], ["run", 10]]
+    return {"kind": "exhaust", "n": n, "script": s + [["drain"]]}
+
+
+def sc_stampede(rng, n):
+    """all but two started at once, random interleaving; then the winner is terminated or killed"""
+    s = [["start", p] for p in range(n - 2)]
+    s += [["any", rng.getrandbits(16)] for _ in range(rng.randint(3 * n, 8 * n))]
+    s += [["drain"]]
+    sig = rng.choice(["term", "kill"])
+    s += [[sig, p] for p in range(n - 2)]
+    if rng.random() < 0.5:
+        s += [["start", n - 2], ["act", n - 2]]
+    s += [["any", rng.getrandbits(16)] for _ in range(rng.randint(0, 12))]
+    s += [["drain"], ["run", n - 2], ["run", n - 1]]
+    return {"kind": "stampede", "n": n, "script": s + [["drain"]]}
+
+
+def sc_random(rng, n):
+    s = [["any", rng.getrandbits(16)] for _ in range(rng.randint(6 * n, 16 * n))]
+    return {"kind": "random", "n": n, "script": s + [["drain"]]}
+
+
+def gen_scenarios(rng, tier):
+    out = []
+    if tier == "quick":
+        plan = [(sc_race, 6), (sc_window, 6), (sc_kill, 8), (sc_stampede, 6), (sc_random, 9), (sc_exhaust, 1)]
+        sizes = [8]
+    else:
+        plan = [(sc_race, 30), (sc_window, 30), (sc_kill, 40), (sc_stampede, 30), (sc_random, 60), (sc_exhaust, 4)]
+        sizes = [8, 8, 12, 16, 24, 32]
+    for f, k in plan:
+        for _ in range(k):
+            out.append(f(rng, rng.choice(sizes)))
+    return out
+
+
+LABELS = {("open", "new"): "LOpen", ("open", "old"): "LOpen", ("lock", "ok"): "LLockOk", ("lock", "busy"): "LLockBusy",
+          ("stat", "same"): "LStatSame", ("stat", "gone"): "LStatGone", ("stat", "changed"): "LStatChanged",
+          ("trunc", "ok"): "LTrunc", ("write", "ok"): "LWrite", ("unlink", "ok"): "LUnlink",
+          ("unlink", "gone"): "LUnlinkGone", ("close", "ok"): "LClose"}
+
+
+def c_ino(i):
+    return cN(i if i >= 0 else 999999)
+
+
+def c_snap(sn):
+    cont = {-1: "FEmpty", -2: "FNoFile", -3: "FOther"}.get(sn["content"], "(FPid %s)" % cnat(max(sn["content"], 0)))
+    locks = clist(["(%s, %s, %s)" % (c_ino(l[0]), cnat(l[1]), cbool(l[2] == 1)) for l in sn["locks"]])
+    return "(mksnap %s %s %s)" % (c_ino(sn["path"]), locks if sn["locks"] else "[]", cont)
+
+
+def c_event(e):
+    k, p = e["k"], cnat(e["p"])
+    if k == "start":
+        return "EStart %s" % p
+    if k == "up":
+        return "EUp %s" % p
+    if k == "term":
+        return "ETerm %s" % p
+    if k == "kill":
+        return "EKill %s %s" % (p, c_snap(e["snap"]))
+    if k == "exit":
+        return "EExit %s %s %s" % (p, cN(e["code"]), c_snap(e["snap"]))
+    res = e["res"].split(":")[0]            # "ok:R" (a read lock) is an acquired lock; the snapshot shows its type
+    lab = LABELS.get((e["sys"], res), "LFail")
+    return "ESys (%s %s) %s %s" % (lab, p, c_ino(e.get("ino", 0)), c_snap(e["snap"]))
+
+
+def run_pidfile_harness(chk, binary, daemon, scenarios, token):
+    """runs the scenarios in parallel shards; returns (observations in order, max_retries, error text)"""
+    nshards = max(1, min(8, (os.cpu_count() or 2) // 2, len(scenarios)))
+    shards = [list(range(i, len(scenarios), nshards)) for i in range(nshards)]
+    base = os.path.join(vlib.BUILD, "c20_pidfile")
+    shutil.rmtree(base, ignore_errors=True)
+    os.makedirs(base, exist_ok=True)
+
+    def one(k):
+        inp = os.path.join(base, "in_%d.json" % k)
+        outp = os.path.join(base, "out_%d.json" % k)
+        tmp = os.path.join(base, "tmp_%d" % k)
+        os.makedirs(tmp, exist_ok=True)
+        json.dump({"daemon": daemon, "tmp": tmp, "token": "%s-%d" % (token, k),
+                   "scenarios": [{"n": scenarios[i]["n"], "script": scenarios[i]["script"]} for i in shards[k]]},
+                  open(inp, "w"))
+        rc, out = vlib.run_go_test(binary, "TestVerifC20Pidfile", {"VERIF_IN": inp, "VERIF_OUT": outp}, timeout=900)
+        if rc != 0 or not os.path.exists(outp):
+            return k, None, "shard %d: rc=%d\n%s" % (k, rc, out[-3000:])
+        return k, json.load(open(outp)), ""
+
+    obs = [None] * len(scenarios)
+    mx, errs = None, []
+    with concurrent.futures.ThreadPoolExecutor(max_workers=nshards) as ex:
+        for k, o, err in ex.map(one, range(nshards)):
+            if o is None:
+                errs.append(err)
+                continue
+            mx = o["max_retries"]
+            for i, so in zip(shards[k], o["scenarios"]):
+                obs[i] = so
+    shutil.rmtree(base, ignore_errors=True)
+    return obs, mx, "\n".join(errs)
+
+
+def pidfile_stage(chk, st, rng, replay_pf, respawn_obs):
+    extra = chk.cov["distinct_nontrivial"] - len(chk._hashes)     # the exhaustive table counted by the respawn stage
+    if replay_pf is not None:
+        scenarios = replay_pf["scenarios"]
+    else:
+        scenarios = gen_scenarios(rng, chk.tier)
+
+    # the watcher must keep its workers out of the pid file (main.go passes -no-pidfile): a worker that
+    # contended with its own watcher would get ErrLocked, exit 0 and never be respawned
+    if respawn_obs and not all(l.get("all_nopidfile", True) for l in respawn_obs.get("loops", [])):
+        chk.fail("worker_pidfile.json", {"what": "a worker was spawned without -no-pidfile", "observed": respawn_obs["loops"]},
+                 sig="c20-worker-without-no-pidfile")
+
+    daemon, dlog = vlib.go_build_daemon()
+    binary, blog = vlib.go_test_binary("newrelic", only=["c20"])
+    if daemon is None or binary is None:
+        chk.fail("pidfile_harness_build.txt", "daemon binary or pid-file harness (package newrelic, TestVerifC20Pidfile) "
+                 "does not build against the current tree:\n" + (dlog or "")[-3000:] + (blog or "")[-3000:], no_input=True)
+        return
+    token = "%08x%d" % (rng.getrandbits(32), os.getpid())
+    obs, mx, err = run_pidfile_harness(chk, binary, daemon, scenarios, token)
+    if err or mx is None or any(o is None for o in obs):
+        chk.fail("pidfile_harness_run.txt", "harness TestVerifC20Pidfile failed:\n" + err, no_input=True)
+        return
+
+    # ---- model (trace inclusion + snapshots) and monitors, inside Coq
+    cases = []
+    for sc, o in zip(scenarios, obs):
+        cases.append("(%s, %s, %s)" % (cnat(sc["n"]), cbool(bool(o["settled"]) and not o["error"]),
+                                       clist([c_event(e) for e in o["events"]])))
+    v = """From Coq Require Import NArith List Bool.
+From Verif Require Import Common Pidfile.
+Import ListNotations.
+Definition mx : N := %s.
+Definition cases : list (nat * bool * list ev) := %s.
+(* correspondence: the observed history is a run of the model LTS and every kernel snapshot agrees *)
+Definition pf_corr_bad := Eval vm_compute in bad_idx (fun c => accepts mx (fst (fst c)) (snd c)) cases 0.
+(* monitor: the property on the observed history alone *)
+Definition pf_prop_bad := Eval vm_compute in bad_idx (fun c => monitor (snd (fst c)) (snd c)) cases 0.
+Definition pf_excl_bad := Eval vm_compute in bad_idx (fun c => mon_exclusive (snd c)) cases 0.
+Definition pf_content_bad := Eval vm_compute in bad_idx (fun c => mon_content (snd c)) cases 0.
+Definition pf_released_bad := Eval vm_compute in bad_idx (fun c => mon_released (snd c)) cases 0.
+Definition pf_successor_bad := Eval vm_compute in bad_idx (fun c => mon_successor (snd (fst c)) (snd c)) cases 0.
+(* informational: histories in which two daemons held pid-file locks at once (on different files) *)
+Definition pf_two_lockers := Eval vm_compute in bad_idx (fun c => negb (two_lockers (snd c))) cases 0.
+Print pf_corr_bad. Print pf_prop_bad. Print pf_excl_bad. Print pf_content_bad. Print pf_released_bad.
+Print pf_successor_bad. Print pf_two_lockers.
+""" % (cN(mx), clist(cases))
+    rc, cout = vlib.coq_eval("cases_c20_pidfile", v, timeout=600)
+    res = {}
+    for k in ("pf_corr_bad", "pf_prop_bad", "pf_excl_bad", "pf_content_bad", "pf_released_bad", "pf_successor_bad",
+              "pf_two_lockers"):
+        res[k] = vlib.parse_nat_list(vlib.parse_printed(cout, k))
+    if rc != 0 or any(x is None for x in res.values()):
+        chk.fail("pidfile_coq_eval.txt", "in-Coq evaluation of the pid-file histories failed:\n" + cout[-4000:], no_input=True)
+        return
+
+    # ---- coverage (all numbers measured on this run)
+    dist, kinds = {}, {}
+    nev = 0
+    for sc, o in zip(scenarios, obs):
+        kinds[sc.get("kind", "replay")] = kinds.get(sc.get("kind", "replay"), 0) + 1
+        started = set()
+        for e in o["events"]:
+            nev += 1
+            key = e["k"] if e["k"] != "sys" else e["sys"] + ":" + e["res"]
+            dist[key] = dist.get(key, 0) + 1
+            if e["k"] == "start":
+                started.add(e["p"])
+        chk.count_case({"n": sc["n"], "script": sc["script"]}, nontrivial=len(started) >= 2)
+    chk.cov["distinct_nontrivial"] = len(chk._hashes) + extra
+    chk.cov["rule"] += ("; pid file: real daemon processes under a ptrace scheduler, one case = one scripted interleaving "
+                        "of the pid-file system calls of n daemons with SIGTERM/SIGKILL; non-trivial when >= 2 daemons "
+                        "were started; distinct by (n, script)")
+    chk.cov["pidfile_cases"] = len(scenarios)
+    chk.cov["pidfile_events"] = nev
+    chk.cov["pidfile_daemons_started"] = dist.get("start", 0)
+    chk.cov["pidfile_templates"] = kinds
+    chk.cov["pidfile_max_retries_in_code"] = mx
+    chk.cov["pidfile_two_lockers_cases"] = len(res["pf_two_lockers"])
+    idist = chk.cov.get("input_distribution", {})
+    idist["pidfile"] = dist
+    chk.cov["input_distribution"] = idist
+    if scenarios:
+        chk.sample({"pidfile_case": {"kind": scenarios[0].get("kind"), "n": scenarios[0]["n"],
+                                     "script_head": scenarios[0]["script"][:12]},
+                    "observed_head": [(e["k"], e["p"], e.get("sys", ""), e.get("res", "")) for e in obs[0]["events"][:14]]})
+    d = chk.cov.get("disagreements", {})
+    d.update({k: len(x) for k, x in res.items() if k != "pf_two_lockers"})
+    chk.cov["disagreements"] = d
+    chk.notes.append("pid file: in %d of %d histories two daemons held pid-file locks at the same time on DIFFERENT files "
+                     "(a contender on an unlinked file before its same-file check, or the old holder between unlink and close "
+                     "in Remove); see C20_one_locker_refuted / C20_one_locker_partial -- not a violation of the property as "
+                     "read here (the lock on the file the path names)" % (len(res["pf_two_lockers"]), len(scenarios)))
+
+    # ---- decide
+    which = {"excl": res["pf_excl_bad"], "content": res["pf_content_bad"], "released": res["pf_released_bad"],
+             "successor": res["pf_successor_bad"]}
+    for i in res["pf_prop_bad"]:
+        failed = [k for k, l in which.items() if i in l]
+        what = {"excl": "more than one daemon at a time owns / holds the lock on the pid file",
+                "content": "the pid file does not hold the pid of the daemon that owns it",
+                "released": "a dead daemon still holds a pid-file lock",
+                "successor": "no daemon is up although one was started after the holder had gone"}
+        chk.fail("pidfile_%d.json" % i,
+                 {"what": "; ".join(what[k] for k in failed), "monitors_failed": failed,
+                  "pidfile": {"scenarios": [scenarios[i]]}, "observed": obs[i]["events"], "harness_error": obs[i]["error"]},
+                 sig=None)
+    broken = []
+    if not st["build_ok"]:
+        broken.append("theorems of PropC20.v no longer check:\n" + st["log"][-3000:])
+    herr = [(i, o["error"]) for i, o in enumerate(obs) if o["error"]]
+    if herr:
+        broken.append("the pid-file harness could not run cases %s to the end: %s" % ([i for i, _ in herr][:10], herr[0][1]))
+    if res["pf_corr_bad"]:
+        i = res["pf_corr_bad"][0]
+        broken.append("correspondence Pidfile.step / kernel snapshots vs the real daemons differs on cases %s; first: %s\n%s"
+                      % (res["pf_corr_bad"][:10], json.dumps(scenarios[i])[:1500],
+                         json.dumps([(e["k"], e["p"], e.get("sys", ""), e.get("res", "")) for e in obs[i]["events"]])[:3000]))
+    if broken and not chk.violations and not chk.known_hits:
+        chk.fail("pidfile_broken.txt", "\n\n".join(broken), no_input=True)
+    chk.assumptions += ["POSIX fcntl record locks, unlink and O_CREAT as modelled in Pidfile.v (kernel: modelled, tied by "
+                        "per-system-call snapshots of /proc/locks, the path's inode and the file content)",
+                        "the ptrace scheduler serialises only the pid-file system calls; everything else runs freely"]
